@@ -177,8 +177,8 @@ example : chunkDec 2 [0, 0] [2, 3] exChain (chunkEnc exL 2 [0, 0] [2, 3] exChain
   chunk_roundtrip exL (deflateOk_stored _ rfl) 2 (by decide) [0, 0] ⟨rfl, wfBytes_of_all _ (by decide)⟩ [2, 3]
     (by decide) exChain exChain_ok exXs (by decide) (elemsOk_of_all _ _ (by decide)) (by decide +kernel)
 /-- the two layouts give different bytes -/
-example : (chunkEnc exL 2 [0, 0] [2, 3] exChain exXs).length = 212 ∧
-    (chunkEnc exL2 2 [0, 0] [2, 3] exChain exXs).length = 190 := by decide +kernel
+example : (chunkEnc exL 2 [0, 0] [2, 3] exChain exXs).length = 163 ∧
+    (chunkEnc exL2 2 [0, 0] [2, 3] exChain exXs).length = 141 := by decide +kernel
 /-- `bytes` instead of a shard -/
 example : chunkDec 2 [0, 0] [2, 3] ⟨[[1, 0], [1, 0]], .bytes true, [.gzip]⟩
     (chunkEnc exL 2 [0, 0] [2, 3] ⟨[[1, 0], [1, 0]], .bytes true, [.gzip]⟩ exXs) = some exXs :=
